@@ -295,8 +295,12 @@ func (p *Policy) sanitize(r io.Reader, w io.Writer) error {
 
 			if len(token.Attr) == 0 {
 				if !p.allowNoAttrs(token.Data) {
-					skipClosingTag = true
-					closingTagToSkipStack = append(closingTagToSkipStack, token.Data)
+					// A void element (<img>, <br>, ...) has no end tag, so
+					// there is no closing tag to skip later.
+					if !isVoidElement(token.Data) {
+						skipClosingTag = true
+						closingTagToSkipStack = append(closingTagToSkipStack, token.Data)
+					}
 					if p.addSpaces {
 						if _, err := buff.WriteString(" "); err != nil {
 							return err
@@ -1037,6 +1041,17 @@ func hasRelToken(rel string, token string) bool {
 		}
 	}
 	return false
+}
+
+// isVoidElement returns true for the HTML elements that never have an end tag
+func isVoidElement(elementName string) bool {
+	switch elementName {
+	case "area", "base", "br", "col", "embed", "hr", "img", "input", "link",
+		"meta", "param", "source", "track", "wbr":
+		return true
+	default:
+		return false
+	}
 }
 
 // stringInSlice returns true if needle exists in haystack
